@@ -1,0 +1,31 @@
+//go:build verif
+
+package massdb
+
+// Contracts for govc. Comment-only; compiled only with -tags verif.
+// The plot DB behind a workspace never touches the keeper's state: contracts of the MassDB interface (assumed).
+
+//@ func (MassDB).Type
+//@   attr trusted
+//@   modifies nothing
+//@ func (MassDB).Close
+//@   attr trusted
+//@   modifies nothing
+//@ func (MassDB).Ready
+//@   attr trusted
+//@   modifies nothing
+//@ func (MassDB).BitLength
+//@   attr trusted
+//@   modifies nothing
+//@ func (MassDB).ID
+//@   attr trusted
+//@   modifies nothing
+//@ func (MassDB).PlotInfo
+//@   attr trusted
+//@   modifies nothing
+//@ func (MassDB).GetQualities
+//@   attr trusted
+//@   modifies nothing
+//@ func (MassDB).GetProof
+//@   attr trusted
+//@   modifies nothing
